@@ -11,5 +11,6 @@ out=/verif/seeded/$id/check_$prop.txt
 rc=$?
 git -C /repo checkout -- .
 echo "exit=$rc" >> $out
+for r in $(grep -o "replay=[^ ]*" $out | cut -d= -f2 | sort -u); do [ -f "$r" ] && cp "$r" /verif/seeded/$id/replay_$(basename $r); done
 grep -h "VIOLATION\|tier=\|KNOWN\|INCONCL" $out | cut -c1-200
 echo "$id $prop exit=$rc"
